@@ -86,7 +86,9 @@ def build_model(mr, ns, variant=0, suffix_names=False):
                 for key in law["gkeys"]:
                     params["%s_r%d" % (key, i)] = f(law[key])
         else:
-            ptype, pd = law_dict(law, i, rx["named"], params)
+            # suffix_names: the rate constant of reaction i is called r<i+1 mod n>, the id an exporter would generate for
+            # another reaction: every SId of the document must still be defined exactly once
+            ptype, pd = law_dict(law, i, rx["named"], params, kname=("r%d" % ((i + 1) % len(prog["rx"]))) if suffix_names else None)
         dtype, dd = delay_args(rx["delay"], i, rx["named"], params)
         re_, pr_ = [sname(s) for s in rx["re"]], [sname(s) for s in rx["pr"]]
         if dtype is None:
